@@ -67,7 +67,23 @@ fn value_refs() {
     let c = Arc::new(c);
     assert!(c.insert(7, [1; 4], 1));
     c.wait().unwrap();
-    let gate = Gate::new(3);
+    let gate = Gate::new(4);
+    // a third writer makes the shard's table grow (keys 7 + 256 i live in the same shard) and
+    // takes the key away and puts it back: a pointer into the table must not outlive its lock
+    let w3 = {
+        let (c, gate) = (c.clone(), gate.clone());
+        std::thread::spawn(move || {
+            gate.pass();
+            for i in 1..6u64 {
+                c.insert(7 + 256 * i, [100 + i; 4], 1);
+                if i == 3 {
+                    c.remove(&7);
+                    c.insert(7, [50; 4], 1);
+                }
+            }
+            let _ = c.wait();
+        })
+    };
     let w1 = {
         let (c, gate) = (c.clone(), gate.clone());
         std::thread::spawn(move || {
@@ -102,6 +118,7 @@ fn value_refs() {
     }
     w1.join().unwrap();
     w2.join().unwrap();
+    w3.join().unwrap();
     let _ = c.close();
 }
 
